@@ -11,6 +11,7 @@ THEOREMS_C15E = ["Slock.C15E.reply_is_before_lock", "Slock.C15E.reply_is_before_
                  "Slock.C15E.refused_unchanged_lock", "Slock.C15E.refused_unchanged_unlock", "Slock.C15E.value_update_is_processFrame",
                  "Slock.C15E.relock_value", "Slock.C15E.update_value", "Slock.C15E.unlock_value", "Slock.C15E.p0b_reply_carries_no_value"]
 THEOREMS_C17R = ["Slock.C17R.reachable_refcounts", "Slock.C17R.keycount_exact", "Slock.C17R.waiter_has_no_expiry_entry", "Slock.C17R.nothing_leaks",
+                 "Slock.C17R.queues_empty_of_no_live", "Slock.C17R.drain_live", "Slock.C17R.drain_tombstones",
                  "Slock.C17R.drain", "Slock.C17R.drain_partial"]
 THEOREMS_C10 = ["Slock.C10.gate_lock", "Slock.C10.gate_unlock", "Slock.C10.no_journal_off_leader", "Slock.C10.follower_expiry_deferred",
                 "Slock.C10.follower_expiry_ended_only_after", "Slock.C10.follower_defers_again"]
